@@ -181,7 +181,9 @@ def gen_equal_case(rng, idx):
     return {"idx": idx, "equal_size": True, "n": n, "r": r, "f": f, "loads": loads}
 
 
-def run_frontend_case(ctx, rng, idx):
+def run_frontend_case(ctx, rng, idx, case=None):
+    if case is not None:
+        return exec_frontend_case(ctx, case)
     """a calculation driven by the table: no running source above the allowed fraction when avoidable, at least one runs"""
     from .. import plants, elec_common as E
     from RunFeemsSim.machinery_calculation import MachineryCalculation
@@ -197,7 +199,17 @@ def run_frontend_case(ctx, rng, idx):
     total = sum(c["rated"] for c in srcs)
     n = int(rng.integers(1, 6))
     P = [float(np.round(rng.uniform(0.0, 0.7) * total, 1)) for _ in range(n)]
-    where = {"case": {"kind": "frontend", "spec": spec, "P": P, "fraction": f_pct}}
+    return exec_frontend_case(ctx, {"kind": "frontend", "spec": spec, "P": P, "fraction": f_pct})
+
+
+def exec_frontend_case(ctx, case):
+    from .. import plants, elec_common as E
+    from RunFeemsSim.machinery_calculation import MachineryCalculation
+    spec, P, f_pct = case["spec"], case["P"], case["fraction"]
+    n, n_swb = len(P), len({c["swb"] for c in spec["electric"]})
+    srcs = [c for c in spec["electric"] if c["kind"] in E.SOURCE_KINDS]
+    total = sum(c["rated"] for c in srcs)
+    where = {"case": case}
     ctx.count("frontend_switchboards", n_swb)
     try:
         plant = plants.Plant(spec)
@@ -222,6 +234,74 @@ def run_frontend_case(ctx, rng, idx):
             if avoidable and frac_ > f * (1 + 1e-9):
                 ctx.fail("predicate", "source-above-allowed-fraction", f"step {t}: {c['name']} at {frac_:.4f} > {f} although the plant could carry {demand[t]} kW within it", where)
     ctx.case_done(signature=("frontend", n_swb, tuple(P)))
+
+
+def run_simulation_case(ctx, rng, idx, case=None):
+    if case is not None:
+        return exec_run_simulation_case(ctx, case)
+    """the table driven through feems.runsimulation.run_simulation with loads set on the components themselves, some of them as a
+    single value standing for a constant (FEEMS broadcasts it in the balance)"""
+    from .. import plants, elec_common as E
+    from feems.runsimulation import run_simulation
+    from feems.components_model.utility import IntegrationMethod
+    from RunFeemsSim.pms_basic import PmsLoadTable, PmsLoadTableSimulationInterface, get_min_load_table_dict_from_feems_system
+    n_swb = int(rng.choice([1, 2, 3]))
+    spec = plants.gen_electric_plant(rng, n_swb=n_swb, with_pti=False, with_storage=False, source_kinds=("genset", "generator"))
+    if rng.random() < 0.5:
+        spec["order"] = [int(i) for i in rng.permutation(len(spec["electric"]))]
+    f_pct = float(rng.choice([50.0, 80.0, 100.0]))
+    srcs = [c for c in spec["electric"] if c["kind"] in E.SOURCE_KINDS]
+    cons = [c for c in spec["electric"] if c["kind"] in ("drive", "other_load")]
+    total = sum(c["rated"] for c in srcs)
+    n = int(rng.integers(2, 6))
+    const_swb = int(rng.choice(sorted({c["swb"] for c in cons}))) if rng.random() < 0.5 else None
+    loads = {}
+    for c in cons:
+        cap = min(c["rated"], 0.6 * total / len(cons))
+        if c["swb"] == const_swb:
+            loads[c["name"]] = [float(np.round(rng.uniform(0.2, 0.9) * cap, 1))]                      # one value for the whole series
+        else:
+            loads[c["name"]] = [float(np.round(rng.uniform(0.0, 0.9) * cap, 1)) for _ in range(n)]
+    return exec_run_simulation_case(ctx, {"kind": "run_simulation", "spec": spec, "loads": loads, "fraction": f_pct, "n": n, "const_swb": const_swb})
+
+
+def exec_run_simulation_case(ctx, case):
+    from .. import plants, elec_common as E
+    from feems.runsimulation import run_simulation
+    from feems.components_model.utility import IntegrationMethod
+    from RunFeemsSim.pms_basic import PmsLoadTable, PmsLoadTableSimulationInterface, get_min_load_table_dict_from_feems_system
+    spec, loads, f_pct, n, const_swb = case["spec"], case["loads"], case["fraction"], case["n"], case.get("const_swb")
+    n_swb = len({c["swb"] for c in spec["electric"]})
+    srcs = [c for c in spec["electric"] if c["kind"] in E.SOURCE_KINDS]
+    cons = [c for c in spec["electric"] if c["kind"] in ("drive", "other_load")]
+    total = sum(c["rated"] for c in srcs)
+    where = {"case": case}
+    ctx.count("run_simulation_constant_load_on_one_switchboard", const_swb is not None)
+    try:
+        plant = plants.Plant(spec)
+        for c in cons:
+            plant.by_name[c["name"]].set_power_input_from_output(np.array(loads[c["name"]], dtype=float))
+        plant.electric.set_time_interval(np.full(n, 60.0), integration_method=IntegrationMethod.sum_with_time)
+        table = PmsLoadTable(min_load2on_pattern=get_min_load_table_dict_from_feems_system(system=plant.electric, maximum_allowed_genset_load_percentage=f_pct))
+        run_simulation(plant.electric, PmsLoadTableSimulationInterface(n_bus_ties=len(spec.get("bus_ties", [])), pms_load_table=table))
+    except Exception as e:
+        ctx.fail("predicate", "run-simulation-raises-" + core.error_class(e), f"{type(e).__name__}: {e}", where)
+        return
+    f = f_pct / 100.0
+    demand = np.zeros(n)
+    for c in cons:
+        demand = demand + np.broadcast_to(np.asarray(plant.by_name[c["name"]].power_input, dtype=float), (n,))
+    for t in range(n):
+        running = [c for c in srcs if np.broadcast_to(plant.by_name[c["name"]].status, (n,))[t]]
+        if not running:
+            ctx.fail("predicate", "no-source-running", f"step {t}: no source runs", where)
+            continue
+        avoidable = total * f > demand[t] * (1 + 1e-9)
+        for c in running:
+            frac_ = float(np.broadcast_to(np.asarray(plant.by_name[c["name"]].power_output, dtype=float), (n,))[t]) / c["rated"]
+            if avoidable and frac_ > f * (1 + 1e-9):
+                ctx.fail("predicate", "source-above-allowed-fraction", f"step {t}: {c['name']} at {frac_:.4f} > {f} although the plant could carry {demand[t]} kW within it", where)
+    ctx.case_done(signature=("run_simulation", n_swb, json.dumps(loads)))
 
 
 CORPUS = core.VERIF / "corpus" / "C15"
@@ -259,6 +339,8 @@ def run(ctx):
             ctx.samples.append(case)
     for i in range(ctx.n(40, 800)):
         run_frontend_case(ctx, ctx.rng, i)
+    for i in range(ctx.n(40, 800)):
+        run_simulation_case(ctx, ctx.rng, i)
     ctx.extra["corpus_cases"] = ncorp
 
 
@@ -274,7 +356,12 @@ def replay(data):
     ctx = core.Ctx("C15", "quick", data.get("seed", 0))
     ctx.model_available = core.DRIVER.exists()
     case = data["case"]["case"]
-    (run_equal_size if case.get("equal_size") else run_case)(ctx, case)
+    if case.get("kind") == "frontend":
+        exec_frontend_case(ctx, case)
+    elif case.get("kind") == "run_simulation":
+        exec_run_simulation_case(ctx, case)
+    else:
+        (run_equal_size if case.get("equal_size") else run_case)(ctx, case)
     for f in ctx.failures:
         print(f"{f['kind']}: {f['tag']}: {f['what'][:300]}")
     if ctx._model:
